@@ -242,8 +242,10 @@ def cli_cases(chk: harness.Check) -> None:
 
 
 def worker(args) -> Dict[str, Any]:
-    argv, shard, n_shards, n_models = args
+    argv, shard, n_shards, n_models = args[:-1]
+    mins = args[-1]
     chk = harness.Check("C03", "exploration", RULE, argv)
+    chk.set_worker_minimums({k: v for k, v in mins.items() if k != "cli_runs"}, n_shards)
     hooks.import_all_repo_modules()
     budget = chk.wall_budget(170, 900)
     jobs: List[Tuple[str, str, str, Optional[List[str]], str]] = []
@@ -267,7 +269,7 @@ def worker(args) -> Dict[str, Any]:
         text, markers = conservation_model(kind, k, rng.choice([0, 1, 3]), rng)
         jobs.append((f"conservation/{kind}/k={k}", text, targets[(i + 5) % len(targets)], markers, kind))
     for idx, (name, text, target, markers, kind) in enumerate(jobs):
-        if chk.elapsed() > budget:
+        if chk.should_stop(budget):
             chk.count("jobs_skipped_for_budget", len(jobs) - idx)
             break
         run_and_judge(chk, name, text, target, markers, kind)
@@ -278,18 +280,22 @@ def main(argv) -> int:
     chk = harness.Check("C03", "exploration", RULE, argv)
     n_models = chk.pick(120, 2400)
     n_shards = 12
+    mins = {
+        "runs_exit_0": 50,
+        "runs_exit_non_zero": 50,
+        "reports_grammar_checked": 50,
+        "conservation_cases": chk.pick(60, 300),
+        "cli_runs": 10,
+    }
     with concurrent.futures.ProcessPoolExecutor(max_workers=n_shards) as pool:
-        jobs = [pool.submit(worker, (list(argv), s, n_shards, n_models)) for s in range(n_shards)]
+        jobs = [pool.submit(worker, (list(argv), s, n_shards, n_models, mins)) for s in range(n_shards)]
         cli_cases(chk)
         for job in jobs:
             try:
                 chk.merge(job.result())
             except Exception as err:
                 chk.harness_error(f"worker failed: {err!r}")
-    chk.require_min("runs_exit_0", 50)
-    chk.require_min("runs_exit_non_zero", 50)
-    chk.require_min("reports_grammar_checked", 50)
-    chk.require_min("conservation_cases", chk.pick(60, 300))
-    chk.require_min("cli_runs", 10)
     chk.assume("one-line messages written without the report helper (argument errors) are accepted as long as stderr is non-empty and the exit status is 1")
+    for counter_name, minimum in mins.items():
+        chk.require_min(counter_name, minimum)
     return chk.finish()
